@@ -129,7 +129,7 @@ func runC07(o Opts) (*Result, error) {
 	})
 
 	// ---- (2) BasePool batches
-	nB := o.N / 2
+	nB := o.N / 4
 	if nB < 4 {
 		nB = 4
 	}
@@ -199,7 +199,7 @@ func runC07(o Opts) (*Result, error) {
 	if err := addItems(kItems, 40); err != nil {
 		return nil, err
 	}
-	if err := addItems(bItems, 8); err != nil {
+	if err := addItems(bItems, 2); err != nil {
 		return nil, err
 	}
 	xPer := 5
